@@ -308,9 +308,39 @@ impl NaturalArray<SimKind> for SimArray<usize> {
         for j in 0..sources.0.len() {
             contract(sources.0[j] < n && targets.0[j] < n, "connected_components: node out of range");
         }
-        // naive min-label propagation to a fixed point (no union-find)
+        // naive min-label propagation to a fixed point (no union-find); for large inputs a
+        // breadth-first search over adjacency lists (still no union-find, no recursion)
         let mut lab: Vec<usize> = (0..n).collect();
-        loop {
+        if sources.0.len() > 4096 {
+            let mut adj: Vec<Vec<usize>> = vec![Vec::new(); n];
+            for j in 0..sources.0.len() {
+                adj[sources.0[j]].push(targets.0[j]);
+                adj[targets.0[j]].push(sources.0[j]);
+            }
+            let mut seen = vec![false; n];
+            let mut queue: Vec<usize> = Vec::new();
+            for root in 0..n {
+                if seen[root] {
+                    continue;
+                }
+                seen[root] = true;
+                queue.clear();
+                queue.push(root);
+                let mut head = 0;
+                while head < queue.len() {
+                    let u = queue[head];
+                    head += 1;
+                    lab[u] = root;
+                    for &v in &adj[u] {
+                        if !seen[v] {
+                            seen[v] = true;
+                            queue.push(v);
+                        }
+                    }
+                }
+            }
+        } else {
+            loop {
             let mut changed = false;
             for j in 0..sources.0.len() {
                 let (u, v) = (sources.0[j], targets.0[j]);
@@ -326,6 +356,7 @@ impl NaturalArray<SimKind> for SimArray<usize> {
             }
             if !changed {
                 break;
+            }
             }
         }
         // dense numbering in first-occurrence order (= the VecLike numbering) ...
